@@ -6,7 +6,8 @@
  * Concrete per query: VP_N entries (1..3) with key lengths VP_K0..VP_K2 and
  * 1-byte values, VP_BS = options.block_size (1: every entry is flushed into
  * its own block; 4096: one block), VP_R restart interval, VP_COMP
- * compression option, VP_FILTER (abstract filter policy on/off).
+ * compression option, VP_FILTER (abstract filter policy on/off), VP_NOSHORT
+ * (comparator = bytewise order with the optional key-shortening hooks unset).
  * Symbolic: all key/value bytes (keys strictly increasing).
  *
  * Asserted (every item from the recorded bytes only):
@@ -177,6 +178,7 @@ vp_ref_handle(const uint8_t *p, size_t n, uint64_t *off, uint64_t *size) {
 void
 harness(void) {
   static ldb_dbopt_t opt;
+  static ldb_comparator_t vp_cmp;
   static uint8_t kb[3][VP_KMAX];
   static uint8_t vb[3][1];
   static vp_ref_block_t ib, db, mb;
@@ -187,7 +189,17 @@ harness(void) {
   size_t blk_off[3];
   int rc;
 
+#ifdef VP_NOSHORT
+  /* bytewise order without key shortening ("an implementation of this method
+     that does nothing is correct"): index keys are the last keys, so every
+     size in the file is concrete; the shortening itself is C16.b */
+  vp_cmp = *ldb_bytewise_comparator;
+  vp_cmp.shortest_separator = NULL;
+  vp_cmp.short_successor = NULL;
+  opt.comparator = &vp_cmp;
+#else
   opt.comparator = ldb_bytewise_comparator;
+#endif
   opt.block_size = VP_BS;
   opt.block_restart_interval = VP_R;
   opt.compression = VP_COMP ? LDB_SNAPPY_COMPRESSION : LDB_NO_COMPRESSION;
